@@ -438,7 +438,10 @@ func (c *Ctx) freshConfirmation() {
 		if lit == nil {
 			c.Bad("C10.3-recheck-deletion", "RecheckDeletionTimestamp", recheck.Decl.Pos(), "no closure returned")
 		} else {
-			lfn, lan := c.LitAnalysis(recheck.Pkg.TypesInfo, lit, "RecheckDeletionTimestamp$1")
+			lfn := c.E.FnOfLit(recheck.Pkg.TypesInfo, lit, "RecheckDeletionTimestamp$1")
+			lfn.KeepDead = true
+			lan := lfn.Analyze(nil)
+			lfn.KeepDead = false
 			n := 0
 			ast.Inspect(lit.Body, func(x ast.Node) bool {
 				ret, ok := x.(*ast.ReturnStmt)
